@@ -19,6 +19,7 @@ from pandapipes.constants import NORMAL_TEMPERATURE, NORMAL_PRESSURE, R_UNIVERSA
 from pandapipes.idx_branch import MDOTINIT, AREA, LOSS_COEFFICIENT as LC, FROM_NODE, PL
 from pandapipes.idx_node import PINIT, PAMB, TINIT as TINIT_NODE
 from pandapipes.pf.pipeflow_setup import get_fluid, get_net_option, get_lookup
+from pandapipes.properties.properties_toolbox import get_branch_real_density
 from pandapipes.pf.result_extraction import extract_branch_results_without_internals
 
 try:
@@ -118,9 +119,10 @@ class Pump(BranchWOInternalsComponent):
                 normfactor_from = numerator_from * fluid.get_compressibility(p_from, t_from) \
                                   / (p_from * NORMAL_TEMPERATURE)
                 v_from = v_mps * normfactor_from
+                vol = v_from * area
             else:
-                v_from = v_mps
-            vol = v_from * area
+                # the characteristic curve refers to the actual volume flow (the one reported as vdot_m3_per_s)
+                vol = pump_branch_pit[:, MDOTINIT] / get_branch_real_density(fluid, node_pit, pump_branch_pit)
             if len(std_types):
                 fcts = itemgetter(*std_types)(net['std_types']['pump'])
                 fcts = [fcts] if not isinstance(fcts, tuple) else fcts
